@@ -64,6 +64,8 @@ type fakeCluster struct {
 	seq        int64
 	chunkMax   int
 	midStream  bool
+	stallPct   int
+	reqTimeout time.Duration
 	assignSubs []chan struct{}
 }
 
@@ -289,6 +291,14 @@ func (n *fakeNode) WriteStream(st proto.OxiaClient_WriteStreamServer) error {
 		if err := n.fault(id, "write-after-apply"); err != nil {
 			return err
 		}
+		if n.fc.stallPct > 0 && n.fc.decide("stall") < n.fc.stallPct {
+			// the answer arrives after the client has given up on this request; the stream stays
+			// healthy and later batches on it must still get their own answers
+			n.fc.noteFault(id)
+			n.fc.r.Count("server_write_answers_after_client_timeout", 1)
+			time.Sleep(n.fc.reqTimeout + time.Duration(n.fc.decide("stall-ms")*20+200)*time.Millisecond)
+			n.fc.noteFault(id)
+		}
 		if err := st.Send(res); err != nil {
 			return err
 		}
@@ -486,6 +496,10 @@ func runC20(r *Run) {
 	linger := []time.Duration{0, time.Millisecond, 5 * time.Millisecond, 50 * time.Millisecond}[g.Intn(4)]
 	maxReq := []int{1, 2, 5, 100, 1000}[g.Intn(5)]
 	reqTimeout := time.Duration(g.Range(2, 10)) * time.Second
+	fc.reqTimeout = reqTimeout
+	if g.Chance(35) {
+		fc.stallPct = g.Range(1, 4)
+	}
 	nClients := g.Range(1, 4)
 	opsPer := g.Range(10, 60)
 	if r.Tier == "thorough" {
@@ -493,6 +507,7 @@ func runC20(r *Run) {
 	}
 	r.Knobs["shards"], r.Knobs["nodes"], r.Knobs["linger"], r.Knobs["max_requests_per_batch"] = nShards, nNodes, linger.String(), maxReq
 	r.Knobs["fault_pct"], r.Knobs["chunk_max"], r.Knobs["request_timeout"] = fc.faultPct, fc.chunkMax, reqTimeout.String()
+	r.Knobs["stall_pct"] = fc.stallPct
 	r.Knobs["plan_size"] = nClients * opsPer
 	allShards := func() []int64 {
 		var ids []int64
